@@ -405,7 +405,7 @@ func (g *G) genSwitch(f *FlowSpec, nd *nodeDraft, loc J, subflow bool) {
 			nd.hasWait = true
 		}
 	}
-	if webhookOperand && !g.P.AllowWebhookAfter && (nd.hasWait || !nodeCallsWebhook(nd)) {
+	if webhookOperand && !g.P.AllowWebhookAfter && (g.P.NoWebhookRefs || nd.hasWait || !nodeCallsWebhook(nd)) {
 		// @webhook is transient by contract: only referenced in the node that made the call,
 		// and never across a wait
 		r["operand"] = "@input.text"
